@@ -32,6 +32,7 @@ type (
 	ECond  struct{ C, A, B Expr }
 	EQuant struct {
 		Forall bool
+		Mapof  bool // mapof x T :: e  - the map (Array sort(T) sort(e)) that sends every x to e, in the current state
 		Vars   []QVar
 		Body   Expr
 		Pats   []Expr // optional trigger (one multi-pattern)
@@ -185,7 +186,7 @@ func (ps *sparser) eat(s string) {
 }
 
 func (ps *sparser) expr() Expr {
-	if ps.isID("forall") || ps.isID("exists") {
+	if ps.isID("forall") || ps.isID("exists") || ps.isID("mapof") {
 		return ps.quant()
 	}
 	if ps.isID("let") {
@@ -213,7 +214,7 @@ func (ps *sparser) expr() Expr {
 }
 
 func (ps *sparser) quant() Expr {
-	q := &EQuant{Forall: ps.cur().s == "forall"}
+	q := &EQuant{Forall: ps.cur().s == "forall", Mapof: ps.cur().s == "mapof"}
 	ps.p++
 	for {
 		// names: a, b T
@@ -520,7 +521,7 @@ func (ps *sparser) primary() Expr {
 			return &EBool{false}
 		case "nil":
 			return &ENil{}
-		case "forall", "exists":
+		case "forall", "exists", "mapof":
 			ps.p--
 			return ps.quant()
 		}
